@@ -1083,3 +1083,37 @@ pub fn c07_rootmnt_b_ino1_body() {
     std::mem::forget(vfs);
 }
 vh!(c07_rootmnt_b_ino1, 8, c07_rootmnt_b_ino1_body());
+
+/// cheap sharp instances of the two-directory rule under a root mount (concrete inodes): the VFS
+/// root belongs to the root-mounted backend A, so root <-> (A, 5) is one mount (delivered with A's
+/// own numbers) and root <-> pseudo directory 2 spans two filesystems (refused before any backend).
+pub fn c07_rootmnt_rename_concrete_body() {
+    let mut cfg = plain_cfg();
+    cfg.root_mount = true;
+    let vfs = mk_vfs(cfg);
+    unsafe {
+        B_ENTRY = Some(Entry::default());
+        B_ERR = 0;
+    }
+    reset_blog();
+    let ctx = Context { uid: 1, gid: 2, pid: 3 };
+    let root = VfsInode::new(0, ROOT_ID);
+    let r = vfs.rename(&ctx, root, name_x(), VfsInode::new(IDX_A, 5), name_x(), 0);
+    unsafe {
+        assert!(r.is_ok() && BLOG.calls == 1 && BLOG.who == IDX_A, "[C07] the VFS root with a root mount belongs to the mounted backend: same-mount operation is delivered");
+        assert!(BLOG.ino == 1 && BLOG.ino2 == 5, "[C07] delivered with the backend's own inode numbers (root = the backend's root inode)");
+    }
+    reset_blog();
+    let r2 = vfs.rename(&ctx, root, name_x(), VfsInode::new(0, 2), name_x(), 0);
+    unsafe {
+        assert!(BLOG.calls == 0 && r2.err().and_then(|e| e.raw_os_error()) == Some(libc::EINVAL), "[C07] an operation spanning the root mount and another filesystem is refused before any backend");
+    }
+    reset_blog();
+    let r3 = vfs.rename(&ctx, VfsInode::new(IDX_B, 4), name_x(), root, name_x(), 0);
+    unsafe {
+        assert!(BLOG.calls == 0 && r3.is_err(), "[C07] an operation spanning the root mount and another filesystem is refused before any backend");
+    }
+    kani::cover!(true, "reached");
+    std::mem::forget(vfs);
+}
+vh!(c07_rootmnt_rename_concrete, 8, c07_rootmnt_rename_concrete_body());
